@@ -409,11 +409,58 @@ class ContainerEngine:
                 o2["variant"] = o2["variant"] + 1
                 o2.pop("enum_faults", None)
                 ops.append(o2)
+        directed = index % 3 == 0
+        if directed:
+            # two curves of one measurement file into one container; the
+            # save of the second one is the enumerated one (the raw data
+            # set of the file is shared by both entries)
+            if files[0]["kind"] != "synthetic_h5" or \
+                    len(files[0]["curves"]) < 2:
+                cfgs = []
+                for _ in range(2):
+                    c = curves.gen_curve_cfg(rng, allow_recorded=False)
+                    c["n"] = rng.choice([60, 100, 160])
+                    c.pop("n_retract", None)
+                    cfgs.append(c)
+                files[0] = {"kind": "synthetic_h5", "curves": cfgs}
+            while len(cvs) < 2:
+                cvs.append(copy.deepcopy(cvs[0]))
+            for j_ in (0, 1):
+                cvs[j_]["file"] = 0
+                cvs[j_]["enum"] = j_
+                cvs[j_]["pipe"] = 0
+            head = []
+            for j_ in (0, 1):
+                head.append({"op": "save", "curve": j_, "variant": 0,
+                             "container": 0, "dt": 1.0,
+                             "user": {"rate": rng.randint(0, 10),
+                                      "name": rng.choice(NAMES),
+                                      "comment": rng.choice(COMMENTS)}})
+            head[1]["enum_faults"] = True
+            ops[0:0] = head
         saves = [i for i, o in enumerate(ops) if o["op"] == "save"
                  and "fault" not in o]
-        if saves:
+        if saves and not (directed and tier == "quick"):
             if tier == "quick":
-                ops[rng.choice(saves)]["enum_faults"] = True
+                # prefer a save that adds a *further* curve of a measurement
+                # file which already has an entry in that container (shared
+                # raw data set), every other run
+                def fkey(o):
+                    cv = cvs[o["curve"] % len(cvs)]
+                    fi = cv["file"] % len(files)
+                    while files[fi]["kind"] == "copy":
+                        fi = files[fi]["of"] % len(files)
+                    k_ = len(files[fi].get("curves", [1])) or 1
+                    return (o["container"] % ncont, fi), cv["enum"] % k_
+                pref = []
+                for i_ in saves:
+                    fk, ek = fkey(ops[i_])
+                    if any(fkey(ops[j_])[0] == fk and fkey(ops[j_])[1] != ek
+                           for j_ in saves if j_ < i_):
+                        pref.append(i_)
+                pick = rng.choice(pref) if pref and index % 2 == 0 \
+                    else rng.choice(saves)
+                ops[pick]["enum_faults"] = True
             else:
                 for i in saves:
                     ops[i]["enum_faults"] = True
